@@ -25,6 +25,10 @@ type Ctx struct {
 	reach         map[string]map[*ssa.Function]*ssa.Function
 	lf            *lenFacts
 	counterFields map[*types.Var]bool
+
+	reconcilerFn   *ssa.Function
+	reconcilerDone bool
+	fnValues       map[*ssa.Function]bool
 }
 
 func NewCtx(p *core.Program, r *core.Report, tier string) *Ctx {
